@@ -145,7 +145,7 @@ class Contract:
                 if k not in have:
                     have[k] = shp.fresh(st, k)
                 vals[f"g_{k}"] = have[k]
-        vals["old"] = View({k: v.snapshot() for k, v in vals.items() if isinstance(v, (LRef, DRef, SObj))})
+        vals["old"] = View({k: v.snapshot() for k, v in vals.items() if isinstance(v, (LRef, DRef, SObj)) or hasattr(v, "py_version")})
         a = View(vals)
         where = f"call-pre@{f.ref.qualname}:{(site or '').split(':')[-1]}"
         pre = self.requires(self_obj, a) if self_obj is not None else self.requires(a)
@@ -414,6 +414,12 @@ class VerifyTask:
         if ov and key in ov:
             return ov[key]
         c = REGISTRY.get(key)
+        # `receiver_fields` of a method contract: it describes the receiver through these fields, so it is only used at
+        # call sites whose receiver model has them all; another contract file that models a SUBCLASS instance without
+        # them (and lists the method in its `inline=`) keeps executing the body, as before the contract existed
+        need = getattr(c, "receiver_fields", None) if c is not None else None
+        if need and isinstance(getattr(f, "bound", None), SObj) and not all(n in f.bound.fields for n in need):
+            return None
         return c
 
     def may_inline(self, key, f):
@@ -574,7 +580,7 @@ class VerifyTask:
         setup = getattr(c, "setup", None)
         if setup is not None:
             setup(st, self_obj, vals)
-        vals["old"] = View({k: v.snapshot() for k, v in vals.items() if isinstance(v, (LRef, DRef, SObj))})
+        vals["old"] = View({k: v.snapshot() for k, v in vals.items() if isinstance(v, (LRef, DRef, SObj)) or hasattr(v, "py_version")})
         a = View(vals)
         inputs = {k: v for k, v in vals.items() if k != "old"}
         if self_obj is not None:
@@ -629,6 +635,16 @@ class VerifyTask:
             st.oblige(f"{self.name}/class-inv@exit", inv(self_obj), "invariant")
 
     def defcls(self):
+        # `defcls=` of the contract: the REAL class whose body defines the target, for a class created inside a function
+        # call (`delegate_to_widget_mixin(name).<locals>.DelegateToWidgetMixin`): such a class is not reachable by
+        # attribute access from its module, and each call of the factory makes another one with its own closure cells
+        # (Frame._real_closure_cell reads them from this class).  The contract must name the class it means; that the
+        # named class really is made from the target's source text is checked here (qualified name and module).
+        given = getattr(self.c, "defcls", None)
+        if given is not None:
+            if given.__qualname__ != self.ref.cls_qual or SRC.module_of_real(given.__module__) is not self.ref.mod:
+                raise Unsupported(f"defcls {given!r} is not the class {self.ref.cls_qual} of {self.ref.mod.relpath}")
+            return given
         if self.ref.cls_qual:
             return SRC.real_class(self.ref.mod, self.ref.cls_qual)
         return None
